@@ -575,6 +575,16 @@ def _cval(e):
     return None
 
 
+def _abs_arg(e):
+    """t if e is the term If(t >= 0, t, -t) built by SR.__abs__, else None"""
+    if e is None or not z3.is_app_of(e, z3.Z3_OP_ITE):
+        return None
+    c, a, b = e.children()
+    if z3.is_app_of(c, z3.Z3_OP_GE) and c.arg(0).eq(a) and _cval(c.arg(1)) == 0 and simp(b + a).eq(simp(z3.RealVal(0))):
+        return a
+    return None
+
+
 def t_add(a, b):
     ca, cb = _cval(a), _cval(b)
     if ca is not None and cb is not None:
@@ -833,6 +843,13 @@ class SR(_Base, numbers.Real):
             n = Fraction(n)
             if n.denominator == 1:
                 k = int(n)
+                if k % 2 == 0 and k != 0:
+                    # |t|**(2m) == t**(2m): drop the case split introduced by abs()
+                    an = _abs_arg(self.n)
+                    ad = _abs_arg(self.d) if self.d is not None else None
+                    if an is not None or ad is not None:
+                        base = SR(an if an is not None else self.n, (ad if ad is not None else self.d))
+                        return base ** n
                 r = SR(_ONE)
                 for _ in range(abs(k)):
                     r = r * self
